@@ -13,6 +13,15 @@ D_FUNCS = ["Path.d", "Path.svg_d", "Move.d", "Line.d", "Close.d", "QuadraticBezi
            "Transformable.__abs__", "Path.reify", "Path.__copy__"] + BUILDER
 
 
+def near(E, a, b, slack=4e-12):
+    """equal up to the 1e-12 slack of Point.__eq__ (which decides whether the smooth shorthand is written and whether
+    a joint is re-linked)"""
+    if a is None or b is None:
+        return a is None and b is None
+    tol = E.const(slack)
+    return And(Abs(a[0] - b[0]) <= tol, Abs(a[1] - b[1]) <= tol)
+
+
 def set_flags(E, p, rels, smooths):
     for s, r, sm in zip(E.items(E.get(p, "_segments")), rels, smooths):
         E.set(s, "relative", r)
@@ -42,8 +51,8 @@ def _(E, case):
         conds.append(same_pt(a[4], b[4]))
         if b[0] != "Move":
             conds.append(same_pt(a[1], b[1]))
-        conds.append(same_pt(a[2], b[2]))
-        conds.append(same_pt(a[3], b[3]))
+        conds.append(near(E, a[2], b[2]))
+        conds.append(near(E, a[3], b[3]))
     E.ensure("same_geometry", And(*conds))
     still = [view(E, s) for s in E.items(E.get(p, "_segments"))]
     E.ensure("source_path_unchanged", And(*[seg_matches(E, a, b) for a, b in zip(still, before)]))
@@ -95,6 +104,18 @@ def _(E, case):
              And(E.cos(rot) * rx == ux, E.sin(rot) * rx == uy))
 
 
+def unshared(E, segs):
+    """ownership: every Point reachable from a segment belongs to that segment only - what makes a later in-place
+    transform (which multiplies each segment's points) act exactly once on every point"""
+    owners = {}
+    for s in segs:
+        for ident in E.reach(s):
+            if ident in owners and owners[ident] is not s:
+                return False
+            owners[ident] = s
+    return True
+
+
 REV_SHAPES = ["ML", "MLL", "MLQ", "MQC", "MLZ", "MLLZ", "MLMQ", "MLZML", "MLLMC"]
 
 
@@ -139,6 +160,7 @@ def _(E, shape):
         if w[0] != "Move":
             conds += [same_pt(a[1], w[1]), same_pt(a[2], w[2]), same_pt(a[3], w[3])]
     E.ensure("subpaths_in_reverse_order_each_segment_reversed_closed_stays_closed", And(*conds))
+    E.ensure("no_point_object_belongs_to_two_segments", unshared(E, E.items(E.get(p, "_segments"))))
     E.call(p, "reverse")
     again = [view(E, s) for s in E.items(E.get(p, "_segments"))]
     conds = [len(again) == len(before)]
@@ -147,3 +169,126 @@ def _(E, shape):
         if b[0] != "Move":
             conds.append(same_pt(a[1], b[1]))
     E.ensure("reversing_twice_restores_the_path", And(*conds))
+
+
+def untouched(E, got, want):
+    """same geometry; the start recorded on a *move* is the pen position before it (bookkeeping, not geometry) and
+    follows the end of the reversed subpath in front of it"""
+    if want[0] == "Move":
+        return And(got[0] == want[0], same_pt(got[4], want[4]))
+    return seg_matches(E, got, want)
+
+
+SUB_REV = [("ML", 0), ("MLQ", 0), ("MQC", 0), ("MLZ", 0), ("MLLZ", 0), ("MLMQ", 0), ("MLMQ", 1), ("MLZML", 0),
+           ("MLZML", 1), ("MLLMC", 1)]
+
+
+@family("C16/Subpath.reverse/representative", SUB_REV,
+        funcs=["Subpath.reverse", "Subpath._reverse_segments", "Subpath.index_to_path_index", "Subpath._numeric_index",
+               "Subpath.__getitem__", "Subpath.__len__", "Path.subpath", "Path.as_subpaths", "PathSegment.reverse",
+               "CubicBezier.reverse", "Subpath.__imul__", "Move.__imul__", "Linear.__imul__", "QuadraticBezier.__imul__",
+               "CubicBezier.__imul__", "Point.__imul__"],
+        props=["C16"], kind="S", timeout_ms=30000,
+        note="subpath views that begin with their own move; kind sequences enumerated, coordinates symbolic")
+def _(E, case):
+    shape, which = case
+    p, state, kinds = mk_prefix(E, shape)
+    segs = E.get(p, "_segments")
+    objs_before = list(E.items(segs))
+    before = [view(E, s) for s in objs_before]
+    # window of the chosen subpath: from its move up to the segment before the next move
+    starts = [i for i, k in enumerate(kinds) if k == "Move"] + [len(kinds)]
+    lo, hi = starts[which], starts[which + 1]
+    sp = before[lo:hi]
+    closed = sp[-1][0] == "Close"
+    drawn = [v for v in sp if v[0] not in ("Move", "Close")]
+    rev = [(k, e, c2 if k == "CubicBezier" else c1, c1 if k == "CubicBezier" else None, s)
+           for (k, s, c1, c2, e) in reversed(drawn)]
+    first = rev[0][1] if rev else sp[0][4]
+    want = [("Move", None, None, None, first)] + rev
+    if closed:
+        want.append(("Close", rev[-1][4] if rev else first, None, None, first))
+    sub = E.call(p, "subpath", which)
+    E.call(sub, "reverse")
+    objs_after = list(E.items(segs))
+    after = [view(E, s) for s in objs_after]
+    E.ensure("same_number_of_segments", len(after) == len(before))
+    if len(after) != len(before):
+        return
+    conds = []
+    for a, w in zip(after[lo:hi], want):
+        conds.append(a[0] == w[0])
+        conds.append(same_pt(a[4], w[4]))
+        if w[0] != "Move":
+            conds += [same_pt(a[1], w[1]), same_pt(a[2], w[2]), same_pt(a[3], w[3])]
+    E.ensure("the_window_is_its_own_reversal_closed_stays_closed", And(*conds))
+    outside = [i for i in range(len(before)) if not lo <= i < hi]
+    E.ensure("segments_of_the_other_subpaths_are_untouched",
+             And(*[And(E.same(objs_after[i], objs_before[i]), untouched(E, after[i], before[i])) for i in outside]))
+    E.ensure("the_path_stays_connected", And(*[near(E, b[1], a[4], 1e-12) for a, b in zip(after, after[1:])
+                   if b[1] is not None and b[0] != "Move"]))   # a move starts a new subpath: nothing to connect
+    E.ensure("no_point_object_belongs_to_two_segments", unshared(E, objs_after))
+    # history: reversal followed by an in-place transform of the view maps every point exactly once
+    M = mk_matrix(E, "T")
+    E.call(sub, "__imul__", M)
+    moved = [view(E, s) for s in E.items(segs)]
+    conds = []
+    for a, w in zip(moved[lo:hi], want):
+        conds.append(same_pt(a[4], apply(M, w[4])))
+        if w[0] != "Move":
+            conds.append(same_pt(a[1], apply(M, w[1])))
+            for j in (2, 3):
+                if w[j] is not None:
+                    conds.append(same_pt(a[j], apply(M, w[j])))
+    E.ensure("a_transform_after_the_reversal_maps_every_point_exactly_once", And(*conds))
+    E.ensure("the_transform_of_the_view_leaves_the_other_subpaths_alone",
+             And(*[untouched(E, moved[i], before[i]) for i in outside]))
+
+
+# --------------------------------------------------------------------------------------------------
+# histories: evaluation, then mutation, then evaluation - no observation may depend on anything but the fields
+# --------------------------------------------------------------------------------------------------
+def fresh_arc(E, arc):
+    """the arc a constructor builds from the present defining fields of `arc` (hidden state in its initial value)"""
+    def P(q):
+        return None if q is None else E.new("Point", x=q.x, y=q.y)
+    return E.new("Arc", start=P(arc.start), end=P(arc.end), center=P(arc.center), prx=P(arc.prx), pry=P(arc.pry),
+                 sweep=arc.sweep, relative=False, smooth=True)
+
+
+def arc_fields(a):
+    out = []
+    for n in ("center", "prx", "pry", "start", "end"):
+        q = a.fd[n] if hasattr(a, "fd") else getattr(a, n)
+        out += [q.fd["x"], q.fd["y"]] if hasattr(q, "fd") else [q.x, q.y]
+    out.append(a.fd["sweep"] if hasattr(a, "fd") else a.sweep)
+    return tuple(out)
+
+
+@family("C16/Arc/no_stale_state_after_evaluation", ["reverse", "imul"],
+        funcs=["Arc.reverse", "Arc.__imul__", "Arc.get_start_t", "Arc.get_end_t", "Arc.get_start_angle",
+               "Arc.get_end_angle"],
+        props=["C16", "C02"], kind="P", timeout_ms=60000,
+        note="an arc that has been evaluated and is then reversed / transformed in place answers like a newly built "
+             "arc with the same defining points (interleaved histories of C16).  Arc.t_at_point, Arc.point_at_angle "
+             "and Arc.angle_at_point enter through their frame contract: audited pure, hence functions of the "
+             "defining points")
+def _(E, how):
+    from .arc import mk_arc_orth, ANY
+    for q, res in (("Arc.t_at_point", "real"), ("Arc.angle_at_point", "real"), ("Arc.point_at_angle", "point")):
+        E.pure_contract(q, arc_fields, res)
+    arc, C, U, V, k = mk_arc_orth(E)
+    sx, sy, ex, ey = E.reals("sx sy ex ey", ANY)
+    E.set(arc, "start", E.new("Point", x=sx, y=sy))
+    E.set(arc, "end", E.new("Point", x=ex, y=ey))
+    E.call(arc, "get_start_t")                       # history: the arc has been evaluated once
+    E.call(arc, "get_end_t")
+    if how == "reverse":
+        E.call(arc, "reverse")
+    else:
+        E.call(arc, "__imul__", mk_matrix(E, "T"))
+    twin = fresh_arc(E, arc)
+    E.ensure("start_parameter_depends_on_the_defining_points_only",
+             E.call(arc, "get_start_t") == E.call(twin, "get_start_t"))
+    E.ensure("end_parameter_depends_on_the_defining_points_only",
+             E.call(arc, "get_end_t") == E.call(twin, "get_end_t"))
